@@ -50,6 +50,43 @@ func init() {
 		}
 		register(&Suite{Name: "e2e_" + p, Parallel: 6, Gen: gen, Exec: execE2E, Rule: rule})
 	}
+	register(&Suite{Name: "e2e_pqsboot", Parallel: 2, Gen: genPqsBoot, Exec: execE2E,
+		Rule: "first boot on a fresh data directory, the back-fill queue of the persistent-query results read by nothing but the engine's own listener (cfg pqdrain=0): (a) 100 distinct persistent queries over one rotated segment — the 100 back-fill requests must reach the .sfm file; (b) 100 persistent queries that match nothing, registered before 11 segments are ingested and rotated — more empty-result requests than the queue holds, no sender may stay blocked and the next query must answer; non-trivial = always"})
+}
+
+// the two first-boot probes of the persistent-query back-fill queue (token pqcheck, see execE2ELayout)
+func genPqsBoot(r *rand.Rand, n int, tier string) []string {
+	var out []string
+	for c := 0; c < n; c++ {
+		toks := []string{"e2e", "pqdrain=0", "H"}
+		if c%2 == 0 {
+			nev := 10 + r.Intn(20)
+			for v := 1; v <= nev; v++ {
+				toks = append(toks, fmt.Sprintf("ev/%d/%d/i~i%d,s~s%s", v, e2eBase+uint64(r.Intn(5000)), r.Intn(7), hexs(vocab[r.Intn(len(vocab))])))
+			}
+			toks = append(toks, "send", "ro", "Q")
+			for k := 3; k <= 110; k++ {
+				toks = append(toks, fmt.Sprintf("q/0/1000/%d/%d/c:i:lt:i%d", e2eBase-1000, e2eBase+6000, k))
+			}
+			toks = append(toks, "w", "pqcheck")
+		} else {
+			base := 1000 + r.Intn(1000)
+			for k := 0; k < 100; k++ {
+				toks = append(toks, fmt.Sprintf("rq/c:i:gt:i%d", base+k))
+			}
+			v := 1
+			for sg := 0; sg < 11; sg++ {
+				for k := 0; k < 3; k++ {
+					toks = append(toks, fmt.Sprintf("ev/%d/%d/i~i%d,s~s%s", v, e2eBase+uint64(r.Intn(5000)), r.Intn(7), hexs("x")))
+					v++
+				}
+				toks = append(toks, "send", "ro")
+			}
+			toks = append(toks, "Q", "w", "pqcheck", fmt.Sprintf("q/0/1000/%d/%d/c:i:lt:i3", e2eBase-1000, e2eBase+6000))
+		}
+		out = append(out, strings.Join(toks, " "))
+	}
+	return out
 }
 
 // the grammar of the engine's utils.FastParseFloat
@@ -1173,6 +1210,9 @@ func execE2ELayout(f []string) Result {
 	for ; i < len(f) && f[i] != "H"; i++ {
 		if strings.HasPrefix(f[i], "card=") {
 			fmt.Fprintf(&in, "cfg card %s\n", f[i][5:])
+		} else if f[i] == "pqdrain=0" {
+			in.WriteString("cfg pqdrain 0\n")
+			tagSet["own-listener-only"] = true
 		} else if f[i] == "pqs=0" || f[i] == "pqs=1" {
 			fmt.Fprintf(&in, "cfg pqs %s\n", f[i][4:])
 			if f[i] == "pqs=0" {
@@ -1252,6 +1292,10 @@ func execE2ELayout(f []string) Result {
 			tagSet["wait-for-pq-write"] = true
 			continue
 		}
+		if t == "pqcheck" {
+			in.WriteString("pqstate\n")
+			continue
+		}
 		q, ok := parseE2EQuery(t)
 		if !ok {
 			return Result{Out: "bad-op"}
@@ -1293,7 +1337,18 @@ func execE2ELayout(f []string) Result {
 	}
 	lines := strings.Split(strings.TrimSpace(stdout.String()), "\n")
 	var resLines []string
+	var pqFails []PropFail
 	for _, l := range lines {
+		// token pqcheck: the state of the persistent-query back-fill queue (e2eworker pqstate)
+		var npq, nsfm, stuck int
+		if n, _ := fmt.Sscanf(l, "#pqstate pqmr=%d sfm=%d stuck=%d", &npq, &nsfm, &stuck); n == 3 {
+			if stuck > 0 {
+				pqFails = append(pqFails, PropFail{Sig: "pqs/backfill-request-sender-blocked", Msg: fmt.Sprintf("%d goroutines are blocked while queueing a persistent-query back-fill / empty-result request: nothing reads the queue (capacity 1000)", stuck)})
+			}
+			if nsfm < npq/100*100 {
+				pqFails = append(pqFails, PropFail{Sig: "pqs/backfill-requests-never-persisted", Msg: fmt.Sprintf("%d persistent-query result files were written, %d of the back-fill requests reached the .sfm files (the listener persists them in batches of 100 or every 10 s): after a restart the results are unknown", npq, nsfm)})
+			}
+		}
 		if strings.HasPrefix(l, "{") && !strings.HasPrefix(l, `{"ingesterr"`) {
 			resLines = append(resLines, l)
 		}
@@ -1467,7 +1522,7 @@ func execE2ELayout(f []string) Result {
 		tags = append(tags, t)
 	}
 	sort.Strings(tags[2:])
-	return Result{Out: strings.Join(segs, " | "), Nontrivial: nev >= 3 && len(qs) >= 1, Tags: tags}
+	return Result{Out: strings.Join(segs, " | "), Fails: pqFails, Nontrivial: nev >= 3 && len(qs) >= 1, Tags: tags}
 }
 
 // display name of an aggregation in the engine's response
